@@ -15,7 +15,7 @@ RULE = ('all well-formed signatures of <=3 (quick) / <=4 (thorough) parameters o
         'cases - the same inputs sent as JSON-RPC params to a generated method whose body returns its bound arguments, with the '
         'context parameter at each position and in each passing mode (by name, first positional, view constructor) x plain '
         'function / coroutine (async dispatcher) / class-based view method (ordinary and @staticmethod); a mapping naming the context parameter is included; the context object is drawn from truthy and falsy values ({}, 0, None, '', [], False). '
-        'twin cases: the SAME function registered twice (with and without a context designation), one registration served first, the other observed. distinct = distinct (signature, context mode, kind, params); non-trivial = the method body ran')
+        'route cases: methods with a context parameter (by name / positional, incl. a positional-only one) registered through a registry or a merged registry. reserved-name cases: parameters called method / self / params / context / request / name / func / args / kwargs / cls / id / exclude / positional. twin cases: the SAME function registered twice (with and without a context designation), one registration served first, the other observed. distinct = distinct (signature, context mode, kind, params); non-trivial = the method body ran')
 EXHAUSTIVE = {'quick': True, 'thorough': True}
 TRUSTED_BASE = ['CPython 3.12 call binding and inspect.Signature.bind as transcribed in Model/Bind.v (py_call is validated '
                 'against the interpreter on every run by the python cases)']
@@ -110,7 +110,31 @@ def generate(seed, tier):
                 for inp in inputs(sig):
                     cases.append({'t': 'disp', 'sig': sig, 'cm': cm, 'inp': inp, 'async': rnd.random() < 0.5, 'ctxv': 0,
                                   'twin': first})
+    # registration routes: the method reaches the dispatcher through a registry / a merged registry (Method.copy)
+    for sig in signatures(2 if tier == 'quick' else 3):
+        for cm in ctx_modes(sig):
+            if cm[0] not in ('name', 'pos'):
+                continue
+            if any(k in ('VP', 'VK') for _, k, _ in sig) or any(k == 'PO' for _, k, _ in sig[1:]):
+                continue          # keep the known class F5 out: at most the context parameter itself is positional-only
+            for via in ('registry', 'merge'):
+                for inp in inputs(sig):
+                    cases.append({'t': 'disp', 'sig': sig, 'cm': cm, 'inp': inp, 'async': rnd.random() < 0.5, 'ctxv': 0, 'via': via})
+    # parameter names that coincide with names the library itself uses (positionally or as keywords) on the way to the call
+    simple2 = [sg for sg in signatures(2) if sg and all(k in ('PK', 'KO') for _, k, _ in sg)]
+    for sg in simple2:
+        for _ in range(2 if tier == 'quick' else 6):
+            names = rnd.sample(RESERVED, len(sg))
+            ren = [(names[i], k, d) for i, (_, k, d) in enumerate(sg)]
+            for cm in ctx_modes(ren):
+                if cm[0] == 'view' and 'self' in names:
+                    continue
+                for inp in inputs(ren):
+                    cases.append({'t': 'disp', 'sig': ren, 'cm': cm, 'inp': inp, 'async': rnd.random() < 0.5, 'ctxv': 0})
     return cases
+
+
+RESERVED = ['method', 'self', 'params', 'context', 'request', 'name', 'func', 'args', 'kwargs', 'cls', 'id', 'exclude', 'positional']
 
 
 def pyfun(sig):
@@ -150,6 +174,8 @@ def observe(case):
 def cfg_of(case):
     sig = [tuple(p) for p in case['sig']]
     ms = [{'name': 'f', 'sig': sig, 'ctx': tuple(case['cm']), 'body': ('env',)}]
+    if case.get('via'):
+        ms[0]['via'] = case['via']
     if case.get('twin'):
         ms[0]['share'] = 'F'
         ms.append({'name': 'g', 'sig': sig, 'ctx': ('none',), 'body': ('env',), 'share': 'F'})
